@@ -176,6 +176,94 @@ func TestC13(t *testing.T) {
 		})
 		out.emit("prim", "c13p", []string{hexBytes(data), intsCSV(chunks), b01(eof), failS, intsCSV(reqs)}, obs)
 	}
+	// primitive level with nested sub-scopes: scripts of  s<count> (SubScope of the current
+	// reader, descend), r<k> (Read k through the current reader), u (back to the parent)
+	for k := 0; k < n*6; k++ {
+		data := make([]byte, g.r.Intn(48))
+		g.r.Read(data)
+		var chunks []int
+		for j := g.r.Intn(12); j > 0; j-- {
+			chunks = append(chunks, 1+g.r.Intn(9))
+		}
+		eof := g.r.Intn(2) == 0
+		fail := -1
+		if g.r.Intn(4) == 0 {
+			fail = g.r.Intn(len(data) + 2)
+		}
+		scope := len(data)
+		if g.r.Intn(5) == 0 {
+			scope += g.r.Intn(6) // a declared scope beyond the stream
+		}
+		var script []string
+		// mostly-valid scripts: the generator tracks what each open scope still allows (reads
+		// through a child do not advance the parent's index, so only the own frame shrinks)
+		rem := []int{scope}
+		for j := 2 + g.r.Intn(10); j > 0; j-- {
+			top := rem[len(rem)-1]
+			switch c := g.r.Intn(10); {
+			case c < 3:
+				cnt := g.r.Intn(top + 1)
+				if g.r.Intn(10) == 0 {
+					cnt = top + 1 + g.r.Intn(3)
+				}
+				script = append(script, "s"+hx(uint64(cnt)))
+				rem = append(rem, cnt)
+			case c < 5 && len(rem) > 1:
+				script = append(script, "u")
+				rem = rem[:len(rem)-1]
+			default:
+				q := 0
+				if top > 0 {
+					q = g.r.Intn(top + 1)
+					if q > 7 {
+						q = g.r.Intn(8)
+					}
+				}
+				if g.r.Intn(12) == 0 {
+					q = top + 1 + g.r.Intn(3)
+				}
+				script = append(script, "r"+hx(uint64(q)))
+				if q <= top {
+					rem[len(rem)-1] = top - q
+				}
+			}
+		}
+		failS := "-"
+		if fail >= 0 {
+			failS = hx(uint64(fail))
+		}
+		obs := guard(func() string {
+			cur := codec.NewDecodingReader(&schedReader{data: append([]byte{}, data...), chunks: append([]int{}, chunks...), eofWithData: eof, failAfter: fail}, uint64(scope))
+			var stack []*codec.DecodingReader
+			var parts []string
+			for _, q := range script {
+				switch q[0] {
+				case 's':
+					c, _ := strconv.ParseUint(q[1:], 16, 64)
+					sub, err := cur.SubScope(c)
+					if err != nil {
+						return strings.Join(append(parts, "ERR"), ",")
+					}
+					stack = append(stack, cur)
+					cur = sub
+					parts = append(parts, "sub")
+				case 'u':
+					cur = stack[len(stack)-1]
+					stack = stack[:len(stack)-1]
+					parts = append(parts, "up")
+				default:
+					c, _ := strconv.ParseUint(q[1:], 16, 64)
+					p := make([]byte, c)
+					if _, err := cur.Read(p); err != nil {
+						return strings.Join(append(parts, "ERR"), ",")
+					}
+					parts = append(parts, hexBytes(p))
+				}
+			}
+			return strings.Join(parts, ",")
+		})
+		out.emit("primsub", "c13pc", []string{hexBytes(data), intsCSV(chunks), b01(eof), failS, hx(uint64(scope)), strings.Join(script, ",")}, obs)
+	}
 	// Read and Skip sequences on a plain byte reader
 	for k := 0; k < n*4; k++ {
 		data := make([]byte, g.r.Intn(40))
